@@ -38,7 +38,7 @@ PROPERTY = {
                      "written independently in props/C43.py"],
     "assumptions": ["executables and shared objects: x86-64 and libc-free i386 only (no cross linker in the sandbox); 32/64-bit big-endian "
                     "and the other little-endian machines (MIPS, PowerPC, AArch64_be, ARM, AArch64, RISC-V) as relocatable objects from "
-                    "clang's cross targets", "family: 7 generated sources x 25 option sets (quick: 5 x 15); a (source, options) pair the "
+                    "clang's cross targets", "family: 8 generated sources x 25 option sets (quick: 6 x 15); a (source, options) pair the "
                     "toolchain refuses (libc call with -nostdlib) is counted as not executed"],
 }
 
@@ -56,6 +56,8 @@ SOURCES = [
     # large sections (more than 64 KiB of initialised data, a large table of relocated pointers)
     "char big[70000] = {1, 2, 3}; static const short tab[5000] = {[17] = 5, [4999] = 7}; int sel(int i) { return tab[i % 5000] + big[i % 70000]; }\n"
     "int (*ptrs[600])(int) = {[0 ... 599] = sel}; int main(int c, char **v) { return ptrs[c % 600](c); }",
+    # a zero-initialised area of several pages after the file data of its segment
+    "char zeros[50000]; static int cnt[3000]; int bump(int i) { cnt[i % 3000]++; return zeros[i % 50000] + cnt[0]; } int main(int c, char **v) { return bump(c); }",
 ]
 OPTIONS = [
     (["gcc", "-O0"], "exe"), (["gcc", "-O2"], "exe"), (["gcc", "-O0", "-g"], "exe"), (["gcc", "-O1", "-no-pie", "-fno-pie"], "exe"),
@@ -232,7 +234,7 @@ class ElfCases(BoundedContract):
 
     def cases(self):
         if self.tier == "quick":
-            return [(s, o) for s in (0, 1, 3, 4, 6) for o in QUICK_OPTIONS]
+            return [(s, o) for s in (0, 1, 3, 4, 6, 7) for o in QUICK_OPTIONS]
         return [(s, o) for s in range(len(SOURCES)) for o in range(len(OPTIONS))]
 
     def show(self, case):
